@@ -35,6 +35,7 @@ type AssertSpec struct {
 	K      int
 	Text   string // anchor by source text of the call expression (every matching call site)
 	Forbid bool   // forbid [l] "text": no call whose source text contains the text may be reachable
+	Assume bool   // assume [l] after "text": e — an assumption about a dependency stated at that call (never an obligation; listed in the evidence)
 }
 
 type FuncContract struct {
@@ -90,7 +91,7 @@ type ContractFile struct {
 var reLabel = regexp.MustCompile(`^\[([A-Za-z0-9_.\-]+)\](\{[A-Z0-9, ]+\})?\s*`)
 
 var clauseKW = map[string]bool{"func": true, "funcs": true, "iface": true, "callback": true, "pred": true, "ghost": true, "axiom": true, "lemma": true, "model": true,
-	"props": true, "requires": true, "ensures": true, "maintains": true, "fspath": true, "forbid": true, "loop": true, "assert": true, "modifies": true, "trusted": true, "nilrecv": true, "pure": true, "package": true}
+	"props": true, "requires": true, "ensures": true, "maintains": true, "fspath": true, "forbid": true, "loop": true, "assert": true, "assume": true, "modifies": true, "trusted": true, "nilrecv": true, "pure": true, "package": true}
 
 func parseContractFile(path, pkg string) (*ContractFile, error) {
 	b, err := os.ReadFile(path)
@@ -233,50 +234,58 @@ func parseContractFile(path, pkg string) (*ContractFile, error) {
 			if i := strings.Index(numS, "("); i >= 0 {
 				numS = strings.TrimSpace(numS[:i])
 			}
-			n, err := strconv.Atoi(numS)
-			if err != nil {
-				return nil, fail(err)
+			// loop 2,4: invariant ... states the same invariant for several loops (an outer loop and the loops nested in it)
+			var loopNums []int
+			for _, ns := range strings.Split(numS, ",") {
+				n, err := strconv.Atoi(strings.TrimSpace(ns))
+				if err != nil {
+					return nil, fail(err)
+				}
+				loopNums = append(loopNums, n)
 			}
 			r2 = strings.TrimSpace(r2)
 			k2, r3, _ := strings.Cut(r2, " ")
-			ls := cur.Loops[n]
-			if ls == nil {
-				ls = &LoopSpec{}
-				cur.Loops[n] = ls
+			for _, n := range loopNums {
+				ls := cur.Loops[n]
+				if ls == nil {
+					ls = &LoopSpec{}
+					cur.Loops[n] = ls
+				}
+				switch k2 {
+				case "invariant":
+					cl, err := parseClause(r3)
+					if err != nil {
+						return nil, fail(err)
+					}
+					ls.Invs = append(ls.Invs, cl)
+				case "exits":
+					m := reLabel.FindStringSubmatch(strings.TrimSpace(r3))
+					if m == nil {
+						return nil, fail(fmt.Errorf("exits needs a label"))
+					}
+					rest2 := strings.TrimSpace(strings.TrimSpace(r3)[len(m[0]):])
+					mm := regexp.MustCompile(`^only\s+"([^"]*)"$`).FindStringSubmatch(rest2)
+					if mm == nil {
+						return nil, fail(fmt.Errorf(`exits clause must be: exits [label] only "text"`))
+					}
+					cl := Clause{Label: m[1], Src: mm[1]}
+					if m[2] != "" {
+						cl.Props = strings.Fields(strings.NewReplacer("{", "", "}", "", ",", " ").Replace(m[2]))
+					}
+					ls.Exits = append(ls.Exits, cl)
+				case "decreases":
+					e, err := parseExpr(r3)
+					if err != nil {
+						return nil, fail(err)
+					}
+					ls.Decr = e
+				default:
+					return nil, fail(fmt.Errorf("bad loop clause kind %q", k2))
+				}
 			}
-			switch k2 {
-			case "invariant":
-				cl, err := parseClause(r3)
-				if err != nil {
-					return nil, fail(err)
-				}
-				ls.Invs = append(ls.Invs, cl)
-			case "exits":
-				m := reLabel.FindStringSubmatch(strings.TrimSpace(r3))
-				if m == nil {
-					return nil, fail(fmt.Errorf("exits needs a label"))
-				}
-				rest2 := strings.TrimSpace(strings.TrimSpace(r3)[len(m[0]):])
-				mm := regexp.MustCompile(`^only\s+"([^"]*)"$`).FindStringSubmatch(rest2)
-				if mm == nil {
-					return nil, fail(fmt.Errorf(`exits clause must be: exits [label] only "text"`))
-				}
-				cl := Clause{Label: m[1], Src: mm[1]}
-				if m[2] != "" {
-					cl.Props = strings.Fields(strings.NewReplacer("{", "", "}", "", ",", " ").Replace(m[2]))
-				}
-				ls.Exits = append(ls.Exits, cl)
-			case "decreases":
-				e, err := parseExpr(r3)
-				if err != nil {
-					return nil, fail(err)
-				}
-				ls.Decr = e
-			default:
-				return nil, fail(fmt.Errorf("bad loop clause kind %q", k2))
-			}
-		case "assert":
+		case "assert", "assume":
 			// assert [label] after|before call NAME#k: expr   |  assert [label] expr (not supported)
+			// assume [label] after|before "text": expr  (assumed contract of a dependency, anchored at its call)
 			m := reLabel.FindStringSubmatch(rest)
 			if m == nil {
 				return nil, fail(fmt.Errorf("assert needs a label"))
@@ -293,13 +302,18 @@ func parseContractFile(path, pkg string) (*ContractFile, error) {
 				}
 				r2 = strings.TrimSpace(r2[j+1:])
 			}
-			reT := regexp.MustCompile(`^(after|before)\s+"([^"]+)"\s*:\s*(.*)$`)
+			reT := regexp.MustCompile(`^(after|before)\s+"([^"]+)"(#\d+)?\s*:\s*(.*)$`)
 			if mt := reT.FindStringSubmatch(r2); mt != nil {
+				textOrd := 0
+				if mt[3] != "" {
+					textOrd, _ = strconv.Atoi(mt[3][1:])
+				}
+				mt = []string{mt[0], mt[1], mt[2], mt[4]}
 				e, err := parseExpr(mt[3])
 				if err != nil {
 					return nil, fail(err)
 				}
-				as := AssertSpec{Clause: Clause{Label: m[1], E: e, Src: mt[3], Uses: uses}, After: mt[1] == "after", Text: mt[2]}
+				as := AssertSpec{Clause: Clause{Label: m[1], E: e, Src: mt[3], Uses: uses}, After: mt[1] == "after", Text: mt[2], Assume: kw == "assume", K: textOrd}
 				if m[2] != "" {
 					as.Props = strings.Fields(strings.NewReplacer("{", "", "}", "", ",", " ").Replace(m[2]))
 				}
@@ -308,7 +322,7 @@ func parseContractFile(path, pkg string) (*ContractFile, error) {
 			}
 			re := regexp.MustCompile(`^(after|before)\s+call\s+(\S+?)#(\d+)\s*:\s*(.*)$`)
 			mm := re.FindStringSubmatch(r2)
-			if mm == nil {
+			if mm == nil || kw == "assume" {
 				return nil, fail(fmt.Errorf("bad assert clause"))
 			}
 			e, err := parseExpr(mm[4])
